@@ -836,9 +836,30 @@ func propC19StdLog(t *rapid.T) {
 		if len(sink.writes) != 1 || !strings.Contains(string(sink.writes[0]), fmt.Sprintf(`"l":%q,"m":"redirected"`, lvl.String())) || len(prior.writes) != 0 {
 			t.Fatalf("redirected output: zap sink %q, prior writer %q", sink.all(), prior.all())
 		}
+		// redirections nest (a library redirects while the application already has): undone innermost first, with
+		// failed attempts in between, the standard logger ends up with the settings it started with
+		depth := rapid.IntRange(0, 3).Draw(t, "nestedRedirections")
+		var inner []func()
+		for i := 0; i < depth; i++ {
+			switch rapid.IntRange(0, 2).Draw(t, "nestedKind") {
+			case 0:
+				inner = append(inner, zap.RedirectStdLog(lg))
+			case 1:
+				if u, e := zap.RedirectStdLogAt(lg, zapcore.WarnLevel); e == nil {
+					inner = append(inner, u)
+				}
+			default:
+				if _, e := zap.RedirectStdLogAt(lg, zapcore.Level(99)); e == nil {
+					t.Fatalf("RedirectStdLogAt accepted level 99")
+				}
+			}
+		}
+		for i := len(inner) - 1; i >= 0; i-- {
+			inner[i]()
+		}
 		undo()
 		if log.Flags() != flags || log.Prefix() != prefix {
-			t.Fatalf("restore function did not restore flags/prefix: %d/%q, want %d/%q", log.Flags(), log.Prefix(), flags, prefix)
+			t.Fatalf("restore function did not restore flags/prefix: %d/%q, want %d/%q (after %d nested redirections undone innermost first)", log.Flags(), log.Prefix(), flags, prefix, len(inner))
 		}
 	}
 	statCase("C19", !valid || flags != 0, fmt.Sprintf("stdlog|%v|%v|%d|%q", valid, useAt, flags, prefix), "std-log redirection")
